@@ -335,16 +335,57 @@ class Impl:
         s = FIXSession(1, target, sender)
         s.next_num_out = next_out
         s.next_num_in = 1
-        self.codec.current_datetime = lambda: now  # instance attribute shadows the staticmethod
         try:
             msg = builder() if builder is not None else build_container(tree, mtype=mtype)
             self.last_msg = msg
-            f = self.codec.encode(msg, s, raw_seq_num=raw)
+            with clock(now):
+                f = self.codec.encode(msg, s, raw_seq_num=raw)
         except Exception as e:  # noqa
             return "err %s %s" % (exc_kind(e), s.next_num_out), None
-        finally:
-            del self.codec.current_datetime
         return "ok %s %s" % (C.cp(f), s.next_num_out), f
+
+
+
+# ------------------------------------------------------------------ the clock the encoder reads
+CLOCK_POOL = ["20240101-00:00:00.000", "20231231-23:59:59.999", "20240229-12:00:00.500", "21000228-23:59:59.999",
+              "19700101-00:00:00.000", "99991231-23:59:59.999", "20240630-23:59:59.999", "20240101-00:00:59.999",
+              "20240101-00:59:59.999", "20240331-01:59:59.999", "19991231-23:59:59.000", "20240101-12:34:56.001"]
+
+
+class clock:
+    """`with clock(text):` - asyncfix.codec reads THIS instant from datetime.utcnow() / now(); the method under test
+    (Codec.current_datetime) is left alone, so whatever it does with the instant is executed.  `text` is the FIX
+    text with milliseconds; the instant additionally carries sub-millisecond microseconds (0 / 499 / 500 / 999,
+    derived from the text) which the FIX text truncates."""
+
+    def __init__(self, text):
+        from datetime import datetime
+
+        base = datetime.strptime(text + "000", "%Y%m%d-%H:%M:%S.%f")
+        extra = (0, 499, 500, 999)[sum(text.encode()) % 4]
+        inst = base.replace(microsecond=base.microsecond + extra)
+
+        class _DT(datetime):
+            @classmethod
+            def utcnow(cls):
+                return inst
+
+            @classmethod
+            def now(cls, tz=None):
+                return inst
+
+        self.dt = _DT
+
+    def __enter__(self):
+        import asyncfix.codec as cm
+
+        self.cm, self.old = cm, cm.datetime
+        cm.datetime = self.dt
+        return self
+
+    def __exit__(self, *exc):
+        self.cm.datetime = self.old
+        return False
 
 
 def enc_line(mtype, tree, sender, target, next_out, raw, now):
@@ -608,6 +649,24 @@ def gen_group(rng, gtag, tbl, depth):
     return ("G", gtag, [gen_item(rng, gtag, tbl, depth, True, opt_p) for _ in range(n)])
 
 
+def near_miss_tag(rng, member_tags, forbidden):
+    cands = set()
+    ms = [str(m) for m in member_tags]
+    for m in ms:
+        for i in range(len(m)):
+            for j in range(i + 1, len(m) + 1):
+                cands.add(m[i:j])
+        cands.add(str(int(m) + 1))
+        cands.add(str(max(1, int(m) - 1)))
+        cands.add(m + m[-1])
+        cands.add(m[0] + m)
+    for a in ms[:4]:
+        for b in ms[:4]:
+            cands.add(a + b)
+    cands = sorted(c for c in cands if c and c not in forbidden and not c.startswith("0") and 0 < int(c) < 100000)
+    return rng.choice(cands) if cands else None
+
+
 def all_member_tags(tbl):
     s = set()
     for ms in tbl.values():
@@ -639,6 +698,14 @@ def gen_wf_msg(rng: random.Random, group=None, keep_seq=False):
                     continue
                 used.add(g)
                 tree.append(gen_group(rng, g, tbl, depth=3))
+                if rng.random() < 0.35:
+                    # right behind the group: a plain tag that is a NEAR MISS of one of its member tags (a substring,
+                    # prefix or suffix of the member's digits, the member +-1, two members glued) - it is not a
+                    # member, so it closes the group; a membership test by text containment would swallow it
+                    t = near_miss_tag(rng, tbl.get(g, []), set(tbl) | members | used | HEADER_TAGS | SKIP_TAGS)
+                    if t is not None:
+                        used.add(t)
+                        tree.append(("L", t, gen_value(rng)))
             elif kind == "S":
                 tree.append(("L", "34", str(rng.choice([1, 7, 42, 99999, 2**40]))))
             else:
@@ -902,7 +969,7 @@ def split_stream(stream: bytes, begin=b"FIX.4.4"):
 
 
 # frame sizes (dimension S): 4 KiB, the 64 KiB stream high-water mark +-1, twice that +-1, 1 MiB
-FRAME_SIZES = [4096, 65535, 65536, 65537, 70000, 131071, 131073, 1 << 20]
+FRAME_SIZES = [4096, 65535, 65536, 65537, 70000, 131071, 131073, 1 << 20, (1 << 20) + 1, 3 << 19, (1 << 21) + 1]
 
 
 def sized_case(spec):
